@@ -401,6 +401,11 @@ def temporary_file_is_private_to_the_module(ctx):
         if isinstance(a, ast.Attribute) and dotted(a.value) == 'self' and a.attr not in ('persistentFile',):
             for g in m.cls(PM).methods.values():
                 texts += [src(v) for t, v, s in attr_stores(g.node) if t.attr == a.attr and v is not None]
+    if isinstance(srcarg, ast.Name):
+        # `with scratch_beside(target) as scratch:` - the path is made by a context manager from what it is given
+        for v, st, how in local_assigns(f.node, srcarg.id):
+            if how == 'with' and isinstance(v, ast.Call):
+                texts += [src(resolved(a, f.node)) for a in list(v.args) + [k.value for k in v.keywords]]
     txt = ' '.join(texts)
     ok = 'persistentFile' in txt or 'self.name' in txt
     ctx.check(ok, f'{f.qualname}:temporary file derived from the module own file name', ren, f'`{txt[:100]}`',
